@@ -130,15 +130,22 @@ pub fn run(ctx: &mut Ctx) {
                 let detail = json!({"rules": lines, "page": url, "generichide_expected": generichide,
                     "engine": {"hide_selectors": got_hide, "exceptions": got_exc, "procedural_actions": got_act, "invocations": got_inv, "generichide": res.generichide},
                     "model": {"hide_selectors": m.hide, "exceptions": m.exceptions, "procedural_actions": m.actions, "invocations": want_inv}});
-                out.push((sigs, nt, h, detail, generichide));
+                let n_proc = got_act.iter().filter(|a| !a.contains("\"action\"")).count();
+                out.push((sigs, nt, h, detail, generichide, !got_act.is_empty(), n_proc > 0));
             }
             out
         });
         match out {
             Err(sig) => ctx.violation(sub, idx, &format!("C16:{}", sig), json!({})),
             Ok(evs) => {
-                for (sigs, nt, h, detail, gh) in evs {
+                for (sigs, nt, h, detail, gh, has_actions, has_procedural) in evs {
                     ctx.eval();
+                    if has_actions {
+                        ctx.obs("pages_with_action_or_procedural_filters", 1);
+                    }
+                    if has_procedural {
+                        ctx.obs("pages_with_procedural_operator_filters", 1);
+                    }
                     if gh {
                         ctx.obs("pages_under_generichide", 1);
                     }
